@@ -32,7 +32,7 @@ def definitions(rng, sz):
     # EVERY disabled mask for n <= full_masks
     for n in range(0, sz["full_masks"] + 1):
         for mask in itertools.product([0, 1], repeat=n):
-            defs.append(IG.shape(rng, did, n, mask, generics=rng.choice(["none", "none", "ty", "const", "tywhere", "tyconst"]) if n else "none"))
+            defs.append(IG.shape(rng, did, n, mask, generics=rng.choice(["none", "none", "ty", "const", "tywhere", "tyconst", "tydef", "constdef"]) if n else "none"))
             did += 1
     for k in range(sz["sampled"]):
         n = rng.randint(sz["full_masks"] + 1, 12)
